@@ -114,7 +114,7 @@ class State:
         self.mem = {}; self.own = set(); self.threads = [Thread()]; self.cur = 0; self.resumed = False
         self.mutexes = {}; self.pc = []; self.model = None; self.next_obj = 1; self.choices = []; self.obs = []
         self.cover = set(); self.nsym = 0; self.steps = 0; self.nalloc = 0; self.preempt = 0; self.faults = 0
-        self.exc = None; self.caught = []; self.tids = {}; self.abandoned = False; self.tags = set(); self.live_heap = 0; self.shared = {}
+        self.exc = None; self.caught = []; self.tids = {}; self.abandoned = False; self.tags = set(); self.live_heap = 0; self.shared = {}; self.spawn_mark = 0
     @property
     def stack(self): return self.threads[self.cur].stack
     def clone(self):
@@ -125,7 +125,7 @@ class State:
         s.choices = list(self.choices); s.obs = list(self.obs); s.cover = set(self.cover); s.nsym = self.nsym
         s.steps = self.steps; s.nalloc = self.nalloc; s.preempt = self.preempt; s.faults = self.faults
         s.exc = self.exc; s.caught = list(self.caught); s.tids = dict(self.tids); s.abandoned = self.abandoned
-        s.tags = set(self.tags); s.live_heap = self.live_heap; s.shared = dict(self.shared)
+        s.tags = set(self.tags); s.live_heap = self.live_heap; s.shared = dict(self.shared); s.spawn_mark = self.spawn_mark
         return s
 
 
@@ -210,6 +210,36 @@ class Engine:
                     elif ins.op == 'switch':
                         d, cases = ins.x
                         ins.c = {(cv.a & ((1 << cv.t.a) - 1)): lb for cv, lb in cases}
+        # library / harness classification of every instruction from the debug line tables (only present in shared_points runs)
+        md = self.m.md
+        if md:
+            fcls = {}
+            def file_cls(fid):
+                if fid is None or fid not in md: return None
+                fn = md[fid][4] or ''
+                if '/include/eventpp/' in fn: return 1
+                if fn.startswith('/verif/'): return 0
+                return None
+            def node_cls(nid):
+                c = fcls.get(nid, -1)
+                if c != -1: return c
+                n = md.get(nid); c = None
+                if n is not None:
+                    kind, sc, fi, ia, _ = n
+                    if kind == 'DILocation':
+                        c = node_cls(sc)
+                        if c is None and ia is not None: c = node_cls(ia)
+                    else:
+                        c = file_cls(fi)
+                        if c is None and kind != 'DISubprogram' and sc is not None: c = node_cls(sc)
+                fcls[nid] = c; return c
+            for f in self.m.funcs.values():
+                if not f.defined: continue
+                f.cls = node_cls(f.dbg) if getattr(f, 'dbg', None) is not None else None
+                for blk in f.blocks.values():
+                    for ins in blk:
+                        c = node_cls(ins.dbg) if ins.dbg is not None else None
+                        ins.lib = c if c is not None else f.cls
         # phi tables: per block, per predecessor
         for f in self.m.funcs.values():
             if not f.defined: continue
@@ -581,15 +611,28 @@ class Engine:
     def shared_point(self, st, work, fr, p):
         """automatic scheduling point: plain access, from eventpp code, to a heap/global object another thread has touched"""
         if type(p) is not tuple: return False
-        oid = p[0]; m = st.shared.get(oid, 0); bit = 1 << st.cur
+        oid = p[0]; m = st.shared.get(oid)
+        if m is None: m = 1 if oid < st.spawn_mark else 0      # objects that existed when the first thread was spawned count as touched by main
+        bit = 1 << st.cur
         if not m & bit:
             o = st.mem.get(oid) or self.base.get(oid)
             if o is None or o.kind == 'stack' or o.kind == 'func': return False
             st.shared[oid] = m | bit
-        if m & ~bit and fr.f.is_lib:
+        if m & ~bit and self.is_lib_access(st, fr):
             if not st.resumed:
                 self.schedule(st, work); return True
             st.resumed = False
+        return False
+
+    def is_lib_access(self, st, fr):
+        """is the current instruction eventpp code (as opposed to harness / policy bookkeeping)? decided from the debug line
+        tables: innermost non-system file of the inline chain, else of the function, else of the nearest non-system caller"""
+        c = fr.blk[fr.ip].lib
+        if c is not None: return c == 1
+        stack = st.threads[st.cur].stack
+        for k in range(len(stack) - 2, -1, -1):
+            f2 = stack[k]; c = f2.blk[f2.ip].lib
+            if c is not None: return c == 1
         return False
 
     def i_load(self, st, work, fr, ins):
@@ -1231,6 +1274,7 @@ def x_self(e, st, work, fr, ins, a): return st.cur
 
 @ext('vf_spawn')
 def x_spawn(e, st, work, fr, ins, a):
+    if st.spawn_mark == 0: st.spawn_mark = st.next_obj
     t = Thread(); t.fresh = True; f = e.m.funcs[e.fname[a[0][0]]]; nf = Frame(f); nf.loc[f.params[0][1]] = a[1]; t.stack.append(nf); st.threads.append(t)
     return len(st.threads) - 1
 
